@@ -70,15 +70,40 @@ def emitted_names(m):
             bsrc = ast.unparse(base) if base is not None else ""
             if "self.numpy" not in bsrc:
                 continue     # attribute of a generated variable (x.T)
-            for nm, how in _resolve_names(m, attr, local_assign, mi):
+            for nm, how in _resolve_names(m, attr, local_assign, mi, fd=fd):
                 out.append((nm, call, how, m.qualname(fd)))
     return out
 
 
-def _resolve_names(m, node, local_assign, mi, depth=0):
+def _resolve_names(m, node, local_assign, mi, depth=0, fd=None):
     if isinstance(node, ast.Call) and isinstance(node.func, ast.Name) \
             and node.func.id == "cast" and len(node.args) == 2:
         node = node.args[1]
+    # a parameter of a private helper: what its callers (same module) pass
+    if isinstance(node, ast.Name) and fd is not None and depth < 3 \
+            and node.id not in local_assign and fd.name.startswith("_") \
+            and node.id in [a.arg for a in fd.args.args + fd.args.kwonlyargs]:
+        out, n_call = [], 0
+        for g in ast.walk(mi.tree):
+            if not isinstance(g, ast.FunctionDef) or g is fd:
+                continue
+            gl = {}
+            for st in ast.walk(g):
+                if isinstance(st, ast.Assign) and isinstance(st.targets[0], ast.Name):
+                    gl.setdefault(st.targets[0].id, []).append(st.value)
+            for call in ast.walk(g):
+                if isinstance(call, ast.Call) and (
+                        (isinstance(call.func, ast.Attribute) and call.func.attr == fd.name
+                         and isinstance(call.func.value, ast.Name)
+                         and call.func.value.id in ("self", "cls"))
+                        or (isinstance(call.func, ast.Name) and call.func.id == fd.name)):
+                    bind = m._bind_args(call, fd)
+                    if bind is None or node.id not in bind:
+                        return [("<unresolved:" + ast.unparse(node)[:40] + ">", "unresolved")]
+                    n_call += 1
+                    out += _resolve_names(m, bind[node.id], gl, mi, depth + 1, fd=g)
+        if n_call:
+            return out
     if isinstance(node, ast.Constant) and isinstance(node.value, str):
         return [(node.value, "literal")]
     if isinstance(node, ast.Subscript) and isinstance(node.value, ast.Name) \
@@ -359,7 +384,7 @@ def r_args(c):
             m.loc(ci.module, fd),
             f"placeholder adds {added} as argument and uses {rets} in the code")
     # generate_numpy_like: parameter list and expected arguments from one collection
-    g = m.func(NL + ".generate_numpy_like")
+    g = m.normal(m.func(NL + ".generate_numpy_like"))    # intermediates propagated
     src = ast.unparse(g)
     kwonly = [k.value for call in ast.walk(g) if isinstance(call, ast.Call)
               and ast.unparse(call.func) == "ast.arguments"
@@ -368,6 +393,11 @@ def r_args(c):
            for k in call.keywords if k.arg == "expected_arguments"]
     bnd = [k.value for call in ast.walk(g) if isinstance(call, ast.Call)
            for k in call.keywords if k.arg == "bound_arguments"]
+    # (propagating a local to several uses repeats its value: one construction site
+    # is one text)
+    def _uniq(nodes):
+        return list({ast.dump(x): x for x in nodes}.values())
+    kwonly, exp, bnd = _uniq(kwonly), _uniq(exp), _uniq(bnd)
     wh = m.loc(NL, g)
     cg_ = find(g, "$cg = NumpyCodegenMapper($$__a)") + find(g, "$cg = NumpyCodegenMapper($$__a, $$__b)") \
         + [e for e in find(g, "$cg = $$f") if ast.unparse(e["@node"].value).startswith(
@@ -384,7 +414,7 @@ def r_args(c):
     c.check(len(bnd) == 1 and f"{cgv}.bound_arguments" in ast.unparse(bnd[0]),
             "R14-ARGS", "generate_numpy_like", "bound_arguments-from-mapper", wh,
             "bound_arguments handed to the program are not the mapper's")
-    for kd in ast.walk(g):
+    for kd in _uniq([x for x in ast.walk(g) if isinstance(x, ast.Call)]):
         if isinstance(kd, ast.Call) and ast.unparse(kd.func) == "ast.arguments":
             kws = {k.arg: k.value for k in kd.keywords}
             a, d = kws.get("kwonlyargs"), kws.get("kw_defaults")
